@@ -73,6 +73,20 @@ def dirkey(rel: Path):
     return out
 
 
+def digests(ds, p):
+    """The digests of a file under the dataset's configured algorithms, computed independently of the library."""
+    import hashlib as _h
+    data = Path(p).read_bytes()
+    out = []
+    for a in ds.dataset_structure.hash_checksum_algorithms:
+        if a.startswith("xxh"):
+            import xxhash as _x
+            out.append({"xxh32": _x.xxh32, "xxh64": _x.xxh64, "xxh128": _x.xxh128}[a](data).hexdigest())
+        else:
+            out.append(_h.new(a, data).hexdigest())
+    return tuple(out)
+
+
 def sha(p):
     return hashlib.sha256(Path(p).read_bytes()).hexdigest()
 
@@ -97,7 +111,7 @@ def dump_tree(ds, root, rel, problems, seen_shards):
             except Exception as e:  # noqa: BLE001
                 problems.append(f"{rel}: shard {p} undecodable {type(e).__name__}")
                 ex = []
-            if tuple(sh.file_infos[0].hash_checksums) != (sha(full),):
+            if tuple(sh.file_infos[0].hash_checksums) != digests(ds, full):
                 problems.append(f"{rel}: shard {p} checksum mismatch")
         if len(ex) != sh.number_of_examples:
             problems.append(f"{rel}: shard {p} records {sh.number_of_examples} examples but holds {len(ex)}")
@@ -119,7 +133,7 @@ def dump_tree(ds, root, rel, problems, seen_shards):
         if not (root / cp).is_file():
             problems.append(f"{rel}: child list {cp} does not exist")
             continue
-        if tuple(ch.shard_list_info_file.hash_checksums) != (sha(root / cp),):
+        if tuple(ch.shard_list_info_file.hash_checksums) != digests(ds, root / cp):
             problems.append(f"{rel}: child list {cp} checksum mismatch")
         sub = dump_tree(ds, root, cp, problems, seen_shards)
         if sub["nex"] != ch.number_of_examples or sub["nsh"] != ch.number_of_shards:
@@ -148,7 +162,7 @@ def dump(ds, root, kept):
         if rel != Path(s) / "shards_list.json":
             problems.append(f"split {s} points to {rel}")
         t = dump_tree(fresh, root, rel, problems, seen)
-        if tuple(li.shard_list_info_file.hash_checksums) != (sha(root / rel),):
+        if tuple(li.shard_list_info_file.hash_checksums) != digests(ds, root / rel):
             problems.append(f"split {s}: root list checksum mismatch")
         if (li.number_of_examples, li.number_of_shards) != (t["nex"], t["nsh"]):
             problems.append(f"split {s}: description records ({li.number_of_examples},{li.number_of_shards}) but the tree holds ({t['nex']},{t['nsh']})")
@@ -178,7 +192,7 @@ def run_history(h, tmp):
         shutil.rmtree(root)
     ds = Dataset.create(path=root, metadata=Metadata(description="h"), dataset_structure=DatasetStructure(
         saved_data_description=[Attribute(name="a", dtype="int32", shape=(1,))], shard_file_type=h.get("format", "fb"),
-        compression="", examples_per_shard=h["eps"], hash_checksum_algorithms=("sha256",)))
+        compression="", examples_per_shard=h["eps"], hash_checksum_algorithms=tuple(h.get("algs", ("sha256",)))))
     out = []
     base = 0
     for s in h["sessions"]:
